@@ -1,6 +1,35 @@
 //! Per-shard report: what was explored, what was observed, and any violations.
 use crate::json::Json;
 use std::collections::{BTreeMap, HashSet};
+use std::io::Write;
+use std::sync::Mutex;
+
+/// Violations are also appended, as they are found, to a side file next to the shard report, so that
+/// what a monitor observed is not lost when the monitored code later kills the worker process
+/// (native stack overflow, abort). The orchestrator reads it only for shards that died.
+static STREAM: Mutex<Option<std::fs::File>> = Mutex::new(None);
+
+pub fn set_stream(path: &str) {
+    if let Ok(f) = std::fs::File::create(path) {
+        *STREAM.lock().unwrap() = Some(f);
+    }
+}
+
+fn stream(sig: &str, detail: &str, witness: &Json, case: (u64, u64)) {
+    if let Ok(mut g) = STREAM.lock() {
+        if let Some(f) = g.as_mut() {
+            let js = Json::obj().set("sig", sig).set("detail", detail).set("witness", witness.clone()).set("shard", case.0).set("index", case.1);
+            let _ = writeln!(f, "{}", js.to_string());
+            let _ = f.flush();
+        }
+    }
+}
+
+/// A monitor running inside an evaluation (a collection observer) found a violation: record it at
+/// once, the evaluation may not return.
+pub fn emergency(sig: &str, detail: &str) {
+    stream(sig, detail, &Json::obj().set("note", "recorded by a monitor inside a running evaluation; the worker may have died afterwards"), (u64::MAX, u64::MAX));
+}
 
 #[derive(Clone, Debug)]
 pub struct Violation {
@@ -87,6 +116,7 @@ impl Report {
         // keep at most 3 witnesses per signature
         let same = self.violations.iter().filter(|v| v.sig == sig).count();
         if same < 3 && self.violations.len() < self.max_violations {
+            stream(sig, &detail, &witness, case);
             self.violations.push(Violation { sig: sig.to_string(), detail, witness, case });
         }
     }
